@@ -97,9 +97,7 @@ pub fn cases_c08(rng: &mut Rng, count: usize, tier: &str) -> Vec<Case> {
             .collect();
         let mut suffixes: Vec<Vec<u8>> = vec![vec![0], vec![0, 0, 0, 0], vec![0, 0, 0, 4, 1, 2, 3, 4]];
         suffixes.push((0..rng.range(1, 8)).map(|_| rng.below(256) as u8).collect());
-        let vbytes: Vec<u8> = if version == 1 {
-            vec![]
-        } else {
+        let vbytes: Vec<u8> = {
             let mut v = vec![0u8, 1, 2, 3, 4, 255];
             for _ in 0..6 {
                 v.push(rng.below(256) as u8);
@@ -133,9 +131,17 @@ pub fn cases_c08(rng: &mut Rng, count: usize, tier: &str) -> Vec<Case> {
         let vb: Vec<V> = vbytes
             .iter()
             .map(|v| {
-                let mut x = file.clone();
-                x[3] = *v;
-                class(&x)
+                if version == 1 {
+                    // a v1 body behind a header announcing version *v
+                    let mut x = b"HPO".to_vec();
+                    x.push(*v);
+                    x.extend_from_slice(&file);
+                    class(&x)
+                } else {
+                    let mut x = file.clone();
+                    x[3] = *v;
+                    class(&x)
+                }
             })
             .collect();
         let mut tags = vec![match version {
